@@ -288,7 +288,13 @@ fn save_v3_with_compression<P: AsRef<Path>>(
     compress: bool,
 ) -> Result<(), SnapshotFormatError> {
     let path = path.as_ref();
-    let temp_path = path.with_extension("tmp");
+    // Sibling temp file: the whole file name plus ".tmp", so it can never be the
+    // target itself (with_extension("tmp") is the target when it already ends in .tmp)
+    let temp_path = {
+        let mut name = path.as_os_str().to_owned();
+        name.push(".tmp");
+        std::path::PathBuf::from(name)
+    };
 
     let router_snapshot = router.snapshot();
     // Estimate total entry count from various slabs
